@@ -134,6 +134,11 @@ def cases(tier, cfg, seed):
                 r = f'bool r=true; for(int i=0;i<{n};++i) {{ bool t = std::abs(a[i]-b[i]) < ({T})0.25; r = r & t; }} o[0]=r?1:0;'
                 c = Red(f'isequal_{SHORT[T]}_{n}', T, n, k, r, [Buf('a', T, n), Buf('b', T, n), Buf('o', 'int', 1, 'out')], 'bits', f'isequal n={n} {T}')
                 c.max_paths = 200; out.append(c)
+            # requires_evaluation overload (lazy linalg arguments)
+            k = f'Tensor<{T},2,2> A(a), B(b); o[0] = isequal(trans(A),B,0.25) ? 1 : 0;'
+            r = f'bool r=true; for(int i=0;i<2;++i) for(int j=0;j<2;++j) {{ bool t = std::abs(a[j*2+i]-b[i*2+j]) < ({T})0.25; r = r & t; }} o[0]=r?1:0;'
+            c = Red(f'isequalT_{SHORT[T]}_2', T, 4, k, r, [Buf('a', T, 4), Buf('b', T, 4), Buf('o', 'int', 1, 'out')], 'bits', f'isequal(trans(A),B) 2x2 {T}')
+            c.max_paths = 200; out.append(c)
     return out
 
 
